@@ -380,3 +380,1235 @@ Qed.
 
 Lemma N_to_str_nonempty : forall n, N_to_str n <> [].
 Proof. intros n E. destruct (N_to_str_spec n) as (_ & _ & _ & D). simpl in D. rewrite E in D. simpl in D. lia. Qed.
+
+(* ------------------------------------------------------------------ *)
+(** * The first pass of [errors]: role messages and the source dictionary *)
+
+Notation A_refl := atom_eqb_refl.
+Notation A_sym := atom_eqb_sym.
+Notation A_trans := atom_eqb_trans.
+Notation C_refl := ctx_eqb_refl.
+Notation C_sym := ctx_eqb_sym.
+Notation C_trans := ctx_eqb_trans.
+
+Definition bad_role_pairs (m : model) (ts : list triple) : list (ctx * emsg) :=
+  map (fun t => (Some t, InvalidRole)) (filter (fun t => negb (has_role m (trole t))) ts).
+Definition src_pairs (ts : list triple) : list (atom * triple) := map (fun t => (tsrc t, t)) ts.
+
+Lemma run_append_app : forall {K V} (keq : K -> K -> bool) (a b : list (K * V)) d,
+  run_append keq (a ++ b) d = run_append keq b (run_append keq a d).
+Proof. intros. unfold run_append. apply fold_left_app. Qed.
+
+Lemma first_pass_gen : forall m ts e g,
+  fold_left (fun (st : errdict * gdict) t =>
+               let e := if has_role m (trole t) then fst st
+                        else err_append (Some t) InvalidRole (fst st) in
+               (e, g_add t (snd st))) ts (e, g) =
+  (run_append ctx_eqb (bad_role_pairs m ts) e, run_append atom_eqb (src_pairs ts) g).
+Proof.
+  induction ts as [|t ts IH]; intros e g; simpl; [reflexivity|].
+  rewrite IH. unfold bad_role_pairs, src_pairs. simpl.
+  destruct (has_role m (trole t)); simpl; reflexivity.
+Qed.
+
+Lemma first_pass_eq : forall m ts,
+  first_pass m ts = (run_append ctx_eqb (bad_role_pairs m ts) [],
+                     run_append atom_eqb (src_pairs ts) []).
+Proof. intros. unfold first_pass. apply first_pass_gen. Qed.
+
+Definition gof (ts : list triple) : gdict := run_append atom_eqb (src_pairs ts) [].
+
+Lemma appended_src_pairs : forall v ts,
+  appended atom_eqb v (src_pairs ts) = filter (fun t => atom_eqb v (tsrc t)) ts.
+Proof.
+  intros v ts. unfold appended, src_pairs. induction ts as [|t ts IH]; simpl; [reflexivity|].
+  destruct (atom_eqb v (tsrc t)); simpl; rewrite IH; reflexivity.
+Qed.
+
+Lemma g_get_gof : forall ts v, g_get (gof ts) v = filter (fun t => atom_eqb v (tsrc t)) ts.
+Proof.
+  intros ts v. unfold g_get, gof.
+  rewrite (dget_run_append atom_eqb atom_equiv). simpl.
+  rewrite appended_src_pairs. destruct (filter _ ts); reflexivity.
+Qed.
+
+Lemma dmem_gof : forall ts v, dmem atom_eqb v (gof ts) = mem atom_eqb v (map tsrc ts).
+Proof.
+  intros ts v. unfold dmem, gof.
+  rewrite (dget_run_append atom_eqb atom_equiv). simpl.
+  rewrite appended_src_pairs.
+  induction ts as [|t ts IH]; simpl; [reflexivity|].
+  destruct (atom_eqb v (tsrc t)); simpl; [reflexivity|exact IH].
+Qed.
+
+Lemma keys_nodup_gof : forall ts, keys_nodup atom_eqb (dkeys (gof ts)).
+Proof. intros. unfold gof. apply keys_nodup_run; [exact atom_equiv|exact I]. Qed.
+
+(* ------------------------------------------------------------------ *)
+(** * Adjacency *)
+
+Lemma mem_set_add : forall u x s, mem atom_eqb u (set_add x s) = atom_eqb u x || mem atom_eqb u s.
+Proof.
+  intros u x s. unfold set_add. destruct (mem atom_eqb x s) eqn:M.
+  - destruct (atom_eqb u x) eqn:E; [|reflexivity]. simpl.
+    rewrite (mem_congr atom_eqb atom_equiv s u x E). exact M.
+  - rewrite (mem_app atom_eqb). simpl. rewrite orb_false_r. apply orb_comm.
+Qed.
+
+Definition is_edge_triple (g : gdict) (t : triple) : bool :=
+  negb (str_eqb (trole t) INSTANCE) && dmem atom_eqb (ttgt t) g.
+
+Lemma mem_edge_targets_gen : forall g ts s u,
+  mem atom_eqb u (fold_left (fun s t => if is_edge_triple g t then set_add (ttgt t) s else s) ts s) =
+  mem atom_eqb u s || existsb (fun t => is_edge_triple g t && atom_eqb u (ttgt t)) ts.
+Proof.
+  induction ts as [|t ts IH]; intros s u; simpl; [rewrite orb_false_r; reflexivity|].
+  rewrite IH. destruct (is_edge_triple g t); simpl; [|reflexivity].
+  rewrite mem_set_add. destruct (atom_eqb u (ttgt t)), (mem atom_eqb u s); reflexivity.
+Qed.
+
+Lemma mem_edge_targets : forall g ts u,
+  mem atom_eqb u (edge_targets g ts) =
+  existsb (fun t => is_edge_triple g t && atom_eqb u (ttgt t)) ts.
+Proof. intros. unfold edge_targets. apply (mem_edge_targets_gen g ts [] u). Qed.
+
+Lemma dget_map_vals : forall {V W} (f : V -> W) (d : dict atom V) k,
+  dget atom_eqb k (map (fun kv : atom * V => (fst kv, f (snd kv))) d) =
+  match dget atom_eqb k d with Some v => Some (f v) | None => None end.
+Proof.
+  induction d as [|[k0 v0] d IH]; intros k; simpl; [reflexivity|].
+  destruct (atom_eqb k k0); [reflexivity|apply IH].
+Qed.
+
+Definition nb (q : adjacency) (v u : atom) : Prop := mem atom_eqb u (q_get q v) = true.
+
+Lemma q_get_congr : forall q a b, atom_eqb a b = true -> q_get q a = q_get q b.
+Proof. intros. unfold q_get. rewrite (dget_congr atom_eqb atom_equiv q a b H). reflexivity. Qed.
+
+Lemma nb_congr : forall q v v' u u', atom_eqb v v' = true -> atom_eqb u u' = true ->
+  nb q v u -> nb q v' u'.
+Proof.
+  intros q v v' u u' E1 E2 H. unfold nb in *.
+  rewrite <- (q_get_congr q v v' E1).
+  rewrite <- (mem_congr atom_eqb atom_equiv _ u u' E2). exact H.
+Qed.
+
+Lemma q_get_adjacency_of : forall g v,
+  q_get (adjacency_of g) v = edge_targets g (g_get g v).
+Proof.
+  intros g v. unfold q_get, adjacency_of, g_get.
+  rewrite (dget_map_vals (edge_targets g)). destruct (dget atom_eqb v g); reflexivity.
+Qed.
+
+Lemma dkeys_adjacency_of : forall g, dkeys (adjacency_of g) = dkeys g.
+Proof. intros g. unfold adjacency_of, dkeys. rewrite map_map. reflexivity. Qed.
+
+(* the directed adjacency is the [link] relation of the spec *)
+Lemma nb_adjacency_link : forall gr v u,
+  nb (adjacency_of (gof (triples gr))) v u <-> link gr v u.
+Proof.
+  intros gr v u. unfold nb. rewrite q_get_adjacency_of, mem_edge_targets, g_get_gof.
+  rewrite existsb_exists. unfold link, is_source. split.
+  - intros (t & I & H). apply filter_In in I. destruct I as [I S].
+    apply andb_true_iff in H. destruct H as [H1 H2].
+    unfold is_edge_triple in H1. apply andb_true_iff in H1. destruct H1 as [R D].
+    rewrite dmem_gof in D. exists t. repeat split; auto.
+    + apply negb_true_iff in R. exact R.
+    + rewrite A_sym. exact S.
+    + rewrite A_sym. exact H2.
+    + rewrite (mem_congr atom_eqb atom_equiv _ u (ttgt t) H2). exact D.
+  - intros (t & I & R & S & T & D). exists t. split.
+    + apply filter_In. split; [exact I|]. rewrite A_sym. exact S.
+    + apply andb_true_iff. split; [|rewrite A_sym; exact T].
+      unfold is_edge_triple. rewrite R. simpl. rewrite dmem_gof.
+      rewrite (mem_congr atom_eqb atom_equiv _ (ttgt t) u T). exact D.
+Qed.
+
+(* q_add *)
+Lemma nb_q_add : forall q tgt var v u,
+  nb (q_add tgt var q) v u <-> nb q v u \/ (atom_eqb v tgt = true /\ atom_eqb u var = true).
+Proof.
+  intros q tgt var v u. unfold nb, q_add, q_get.
+  destruct (atom_eqb v tgt) eqn:E.
+  - rewrite (dget_congr atom_eqb atom_equiv q v tgt E).
+    destruct (dget atom_eqb tgt q) as [s|] eqn:G.
+    + rewrite (dget_dset_same atom_eqb atom_equiv) by exact E.
+      rewrite mem_set_add. rewrite orb_true_iff. tauto.
+    + rewrite (dget_dset_same atom_eqb atom_equiv) by exact E.
+      simpl. rewrite orb_false_r. split; [intro H; right; auto|intros [H|[_ H]]; [discriminate|exact H]].
+  - destruct (dget atom_eqb tgt q) as [s|] eqn:G;
+      rewrite (dget_dset_other atom_eqb atom_equiv) by exact E;
+      split; auto; intros [H|[H _]]; auto; discriminate.
+Qed.
+
+Lemma nb_inner_fold : forall l q var v u,
+  nb (fold_left (fun q tgt => q_add tgt var q) l q) v u <->
+  nb q v u \/ (mem atom_eqb v l = true /\ atom_eqb u var = true).
+Proof.
+  induction l as [|x l IH]; intros q var v u; simpl.
+  - split; auto. intros [H|[H _]]; [exact H|discriminate].
+  - rewrite IH, nb_q_add, orb_true_iff. tauto.
+Qed.
+
+Definition bidir_step (q : adjacency) (var : atom) : adjacency :=
+  fold_left (fun q tgt => q_add tgt var q) (q_get q var) q.
+
+Lemma nb_bidir_step : forall q var v u,
+  nb (bidir_step q var) v u <-> nb q v u \/ (nb q var v /\ atom_eqb u var = true).
+Proof. intros. unfold bidir_step. rewrite nb_inner_fold. unfold nb. tauto. Qed.
+
+Section Bidir.
+  Variable q0 : adjacency.
+  Definition S0 (v u : atom) : Prop := nb q0 v u \/ nb q0 u v.
+
+  Definition bidir_inv (processed : list atom) (q : adjacency) : Prop :=
+    (forall v u, nb q0 v u -> nb q v u) /\
+    (forall v u, nb q v u -> S0 v u) /\
+    (forall p u, mem atom_eqb p processed = true -> nb q0 p u -> nb q u p).
+
+  Lemma bidir_fold_inv : forall ks processed q, bidir_inv processed q ->
+    bidir_inv (processed ++ ks) (fold_left bidir_step ks q).
+  Proof.
+    induction ks as [|k ks IH]; intros processed q Inv; simpl.
+    - rewrite app_nil_r. exact Inv.
+    - replace (processed ++ k :: ks) with ((processed ++ [k]) ++ ks)
+        by (rewrite <- app_assoc; reflexivity).
+      apply IH. destruct Inv as (I1 & I2 & I3). repeat split.
+      + intros v u H. apply nb_bidir_step. left. apply I1. exact H.
+      + intros v u H. apply nb_bidir_step in H. destruct H as [H|[H E]]; [apply I2; exact H|].
+        apply I2 in H. unfold S0 in *.
+        rewrite A_sym in E.
+        destruct H as [H|H]; [right|left]; eapply nb_congr; try exact H; auto using A_refl.
+      + intros p u M H. rewrite (mem_app atom_eqb) in M. apply orb_true_iff in M.
+        apply nb_bidir_step. destruct M as [M|M].
+        * left. apply I3; assumption.
+        * simpl in M. rewrite orb_false_r in M. right. split; [|exact M].
+          apply I1. eapply nb_congr; try exact H; auto using A_refl.
+  Qed.
+
+  Lemma nb_key : forall v u, nb q0 v u -> mem atom_eqb v (dkeys q0) = true.
+  Proof.
+    intros v u H. unfold nb, q_get in H. rewrite <- (dmem_iff_keys atom_eqb). unfold dmem.
+    destruct (dget atom_eqb v q0); [reflexivity|discriminate].
+  Qed.
+
+  Lemma nb_make_bidirectional : forall v u,
+    nb (make_bidirectional q0) v u <-> S0 v u.
+  Proof.
+    intros v u.
+    assert (Inv : bidir_inv ([] ++ dkeys q0) (fold_left bidir_step (dkeys q0) q0)).
+    { apply bidir_fold_inv. repeat split; auto.
+      - intros ? ? H. left. exact H.
+      - intros ? ? M. discriminate. }
+    destruct Inv as (I1 & I2 & I3). simpl in I3.
+    change (make_bidirectional q0) with (fold_left bidir_step (dkeys q0) q0).
+    split; [apply I2|]. intros [H|H]; [apply I1; exact H|].
+    apply I3; [|exact H]. eapply nb_key; eauto.
+  Qed.
+End Bidir.
+
+(* ------------------------------------------------------------------ *)
+(** * The work-list search *)
+
+Lemma mem_filter_congr : forall (f : atom -> bool) l u,
+  (forall a b, atom_eqb a b = true -> f a = f b) ->
+  mem atom_eqb u (filter f l) = mem atom_eqb u l && f u.
+Proof.
+  intros f l u Hf. induction l as [|x l IH]; simpl; [reflexivity|].
+  destruct (f x) eqn:Fx; simpl.
+  - rewrite IH. destruct (atom_eqb u x) eqn:E; simpl; [|reflexivity].
+    rewrite (Hf u x E), Fx. reflexivity.
+  - rewrite IH. destruct (atom_eqb u x) eqn:E; simpl; [|reflexivity].
+    rewrite (Hf u x E), Fx. rewrite andb_false_r. reflexivity.
+Qed.
+
+Lemma mem_rev : forall l u, mem atom_eqb u (rev l) = mem atom_eqb u l.
+Proof.
+  induction l as [|x l IH]; intros u; simpl; [reflexivity|].
+  rewrite (mem_app atom_eqb). simpl. rewrite IH, orb_false_r. apply orb_comm.
+Qed.
+
+Lemma notin_congr : forall vis a b, atom_eqb a b = true ->
+  negb (mem atom_eqb a vis) = negb (mem atom_eqb b vis).
+Proof. intros. f_equal. apply (mem_congr atom_eqb atom_equiv). exact H. Qed.
+
+Lemma filter_len_le : forall {A} (f : A -> bool) l, length (filter f l) <= length l.
+Proof. induction l as [|x l IH]; simpl; [lia|]. destruct (f x); simpl; lia. Qed.
+
+Section Search.
+  Variable q : adjacency.
+
+  Definition closed_inv (visited agenda : list atom) : Prop :=
+    forall x y, mem atom_eqb x visited = true -> nb q x y ->
+                mem atom_eqb y visited = true \/ mem atom_eqb y agenda = true.
+
+  Lemma dfs_loop_spec : forall fuel visited agenda res,
+    dfs_loop fuel q visited agenda = Some res ->
+    (forall x, mem atom_eqb x visited = true \/ mem atom_eqb x agenda = true ->
+               mem atom_eqb x res = true) /\
+    (closed_inv visited agenda ->
+     forall x y, mem atom_eqb x res = true -> nb q x y -> mem atom_eqb y res = true) /\
+    (forall P : atom -> Prop,
+       (forall a b, atom_eqb a b = true -> P a -> P b) ->
+       (forall x y, P x -> nb q x y -> P y) ->
+       (forall x, mem atom_eqb x visited = true \/ mem atom_eqb x agenda = true -> P x) ->
+       forall x, mem atom_eqb x res = true -> P x).
+  Proof.
+    induction fuel as [|f IH]; intros visited agenda res H; simpl in H; [discriminate|].
+    destruct agenda as [|cur rest].
+    - inversion H; subst res. repeat split.
+      + intros x [M|M]; [exact M|discriminate].
+      + intros CI x y Mx N. destruct (CI x y Mx N) as [M|M]; [exact M|discriminate].
+      + intros P _ _ HP x M. apply HP. left. exact M.
+    - destruct (mem atom_eqb cur visited) eqn:MC.
+      + destruct (IH _ _ _ H) as (R1 & R2 & R3). repeat split.
+        * intros x [M|M]; [apply R1; left; exact M|]. simpl in M.
+          destruct (atom_eqb x cur) eqn:E.
+          -- apply R1. left. rewrite (mem_congr atom_eqb atom_equiv _ x cur E). exact MC.
+          -- apply R1. right. exact M.
+        * intros CI. apply R2. intros x y Mx N.
+          destruct (CI x y Mx N) as [M|M]; [left; exact M|]. simpl in M.
+          destruct (atom_eqb y cur) eqn:E.
+          -- left. rewrite (mem_congr atom_eqb atom_equiv _ y cur E). exact MC.
+          -- right. exact M.
+        * intros P PC PS HP. apply R3; auto. intros x [M|M]; apply HP; [left; exact M|].
+          right. simpl. rewrite M. apply orb_true_r.
+      + set (visited' := visited ++ [cur]) in *.
+        set (new := filter (fun t => negb (mem atom_eqb t visited')) (q_get q cur)) in *.
+        destruct (IH _ _ _ H) as (R1 & R2 & R3).
+        assert (Mnew : forall y, mem atom_eqb y new =
+                                 mem atom_eqb y (q_get q cur) && negb (mem atom_eqb y visited')).
+        { intros y. unfold new. apply mem_filter_congr. intros a b E. apply notin_congr. exact E. }
+        assert (Mv' : forall y, mem atom_eqb y visited' = mem atom_eqb y visited || atom_eqb y cur).
+        { intros y. unfold visited'. rewrite (mem_app atom_eqb). simpl. rewrite orb_false_r. reflexivity. }
+        repeat split.
+        * intros x [M|M].
+          -- apply R1. left. rewrite Mv', M. reflexivity.
+          -- simpl in M. destruct (atom_eqb x cur) eqn:E.
+             ++ apply R1. left. rewrite Mv', E. apply orb_true_r.
+             ++ simpl in M. apply R1. right. rewrite (mem_app atom_eqb). rewrite M. apply orb_true_r.
+        * intros CI. apply R2. intros x y Mx N. rewrite Mv' in Mx.
+          destruct (mem atom_eqb y visited') eqn:MY; [left; reflexivity|right].
+          rewrite (mem_app atom_eqb), mem_rev, Mnew, MY. simpl. rewrite andb_true_r.
+          apply orb_true_iff in Mx. destruct Mx as [Mx|Mx].
+          -- destruct (CI x y Mx N) as [M|M].
+             ++ rewrite Mv', M in MY. discriminate.
+             ++ simpl in M. rewrite Mv' in MY. apply orb_false_iff in MY. destruct MY as [_ MY].
+                rewrite MY in M. simpl in M. rewrite M. apply orb_true_r.
+          -- assert (N' : nb q cur y) by (eapply nb_congr; try exact N; auto using atom_eqb_refl).
+             unfold nb in N'. rewrite N'. reflexivity.
+        * intros P PC PS HP. apply R3; auto. intros x [M|M].
+          -- rewrite Mv' in M. apply orb_true_iff in M. destruct M as [M|M].
+             ++ apply HP. left. exact M.
+             ++ apply (PC cur x); [rewrite atom_eqb_sym; exact M|]. apply HP. right.
+                simpl. rewrite atom_eqb_refl. reflexivity.
+          -- rewrite (mem_app atom_eqb), mem_rev, Mnew in M. apply orb_true_iff in M.
+             destruct M as [M|M].
+             ++ apply andb_true_iff in M. destruct M as [M _].
+                apply (PS cur x); [|exact M]. apply HP. right. simpl. rewrite atom_eqb_refl. reflexivity.
+             ++ apply HP. right. simpl. rewrite M. apply orb_true_r.
+  Qed.
+
+  (* fuel: the potential |agenda| + total degree of the unvisited keys *)
+  Definition weight (visited : list atom) (d : adjacency) : nat :=
+    list_sum (map (fun kv : atom * list atom =>
+                     if mem atom_eqb (fst kv) visited then 0 else length (snd kv)) d).
+
+  Lemma weight_mono : forall d visited cur, weight (visited ++ [cur]) d <= weight visited d.
+  Proof.
+    induction d as [|[k l] d IH]; intros visited cur; unfold weight in *; simpl; [lia|].
+    rewrite (mem_app atom_eqb). specialize (IH visited cur).
+    destruct (mem atom_eqb k visited); simpl; [lia|].
+    destruct (atom_eqb k cur); simpl; lia.
+  Qed.
+
+  Lemma weight_step : forall d visited cur, mem atom_eqb cur visited = false ->
+    weight (visited ++ [cur]) d + length (q_get d cur) <= weight visited d.
+  Proof.
+    induction d as [|[k l] d IH]; intros visited cur M; unfold weight, q_get in *; simpl; [lia|].
+    rewrite (mem_app atom_eqb). simpl. rewrite orb_false_r.
+    destruct (atom_eqb cur k) eqn:E.
+    - rewrite <- (mem_congr atom_eqb atom_equiv visited cur k E), M. simpl.
+      rewrite atom_eqb_sym, E. simpl.
+      assert (W := weight_mono d visited cur). unfold weight in W. lia.
+    - specialize (IH visited cur M). rewrite atom_eqb_sym, E, orb_false_r.
+      destruct (mem atom_eqb k visited); simpl; lia.
+  Qed.
+
+  Lemma dfs_loop_fuel : forall fuel visited agenda,
+    length agenda + weight visited q < fuel ->
+    exists res, dfs_loop fuel q visited agenda = Some res.
+  Proof.
+    induction fuel as [|f IH]; intros visited agenda H; [lia|]. simpl.
+    destruct agenda as [|cur rest]; [eexists; reflexivity|].
+    destruct (mem atom_eqb cur visited) eqn:MC.
+    - apply IH. simpl in H. lia.
+    - apply IH. rewrite app_length, rev_length.
+      assert (F : length (filter (fun t => negb (mem atom_eqb t (visited ++ [cur]))) (q_get q cur))
+                  <= length (q_get q cur)) by apply filter_len_le.
+      assert (W := weight_step q visited cur MC). simpl in H. lia.
+  Qed.
+
+  Lemma weight_nil : weight [] q = length (flat_map snd q).
+  Proof.
+    unfold weight. induction q as [|[k l] d IH]; simpl; [reflexivity|].
+    rewrite app_length. f_equal. exact IH.
+  Qed.
+
+  Lemma dfs_loop_total : forall top, exists res, dfs_loop (dfs_fuel q) q [] [top] = Some res.
+  Proof. intros top. apply dfs_loop_fuel. rewrite weight_nil. unfold dfs_fuel. simpl. lia. Qed.
+End Search.
+
+(* ------------------------------------------------------------------ *)
+(** * [_dfs] computes the weakly connected component of the top *)
+
+Lemma reachable_congr_r : forall gr u v v', atom_eqb v v' = true ->
+  reachable gr u v -> reachable gr u v'.
+Proof. intros. eapply reach_trans; [eassumption|]. apply reach_refl. assumption. Qed.
+
+Lemma nb_final_link : forall gr v u,
+  nb (make_bidirectional (adjacency_of (gof (triples gr)))) v u <-> link gr v u \/ link gr u v.
+Proof.
+  intros. rewrite nb_make_bidirectional. unfold S0. rewrite !nb_adjacency_link. tauto.
+Qed.
+
+Lemma dfs_total : forall gr top, exists res, dfs (gof (triples gr)) top = Some res.
+Proof. intros. unfold dfs. apply dfs_loop_total. Qed.
+
+Lemma dfs_component : forall gr top res,
+  dfs (gof (triples gr)) top = Some res ->
+  forall v, mem atom_eqb v res = true <-> reachable gr top v.
+Proof.
+  intros gr top res H v. unfold dfs in H.
+  destruct (dfs_loop_spec _ _ _ _ _ H) as (R1 & R2 & R3).
+  split.
+  - apply (R3 (reachable gr top)).
+    + intros a b E Ra. eapply reachable_congr_r; eauto.
+    + intros x y Rx N. apply nb_final_link in N. eapply reach_trans; [exact Rx|].
+      destruct N as [N|N]; [apply reach_edge; exact N|apply reach_sym, reach_edge; exact N].
+    + intros x [M|M]; [discriminate|]. simpl in M. rewrite orb_false_r in M.
+      apply reach_refl. rewrite atom_eqb_sym. exact M.
+  - intros Rv.
+    assert (CI : closed_inv (make_bidirectional (adjacency_of (gof (triples gr)))) [] [top]).
+    { intros x y M. discriminate. }
+    specialize (R2 CI).
+    assert (T : mem atom_eqb top res = true).
+    { apply R1. right. simpl. rewrite atom_eqb_refl. reflexivity. }
+    assert (G : forall a b, reachable gr a b ->
+                            (mem atom_eqb a res = true <-> mem atom_eqb b res = true)).
+    { intros a b Rab. induction Rab as [a b E|a b L|a b _ IH|a b c _ IH1 _ IH2].
+      - rewrite (mem_congr atom_eqb atom_equiv res a b E). tauto.
+      - split; intro M.
+        + apply (R2 a b M). apply nb_final_link. left. exact L.
+        + apply (R2 b a M). apply nb_final_link. right. exact L.
+      - tauto.
+      - tauto. }
+    apply (G top v Rv). exact T.
+Qed.
+
+(* ------------------------------------------------------------------ *)
+(** * The report as a run of appends *)
+
+Lemma unreach_inner : forall ts e,
+  fold_left (fun e t => err_append (Some t) Unreachable e) ts e =
+  run_append ctx_eqb (map (fun t => (Some t, Unreachable)) ts) e.
+Proof. induction ts as [|t ts IH]; intros e; simpl; [reflexivity|]. rewrite IH. reflexivity. Qed.
+
+Lemma unreach_fold : forall g l e,
+  fold_left (fun e uvar =>
+               fold_left (fun e t => err_append (Some t) Unreachable e) (g_get g uvar) e) l e =
+  run_append ctx_eqb (map (fun t => (Some t, Unreachable)) (flat_map (g_get g) l)) e.
+Proof.
+  induction l as [|v l IH]; intros e; simpl; [reflexivity|].
+  rewrite IH, unreach_inner, map_app, run_append_app. reflexivity.
+Qed.
+
+Lemma in_insert_sorted : forall x y l, In x (insert_sorted y l) <-> x = y \/ In x l.
+Proof.
+  induction l as [|z l IH]; simpl; [intuition congruence|].
+  destruct (atom_ltb y z); simpl; [intuition congruence|]. rewrite IH. intuition congruence.
+Qed.
+
+Lemma in_sort_atoms : forall x l, In x (sort_atoms l) <-> In x l.
+Proof.
+  induction l as [|y l IH]; simpl; [tauto|]. rewrite in_insert_sorted, IH.
+  intuition congruence.
+Qed.
+
+(* what each message means *)
+Definition msg_spec (m : model) (gr : graph) (k : ctx) (msg : emsg) : Prop :=
+  match msg with
+  | Empty => k = None /\ triples gr = []
+  | NoTop => k = None /\ triples gr <> [] /\ top_falsy (graph_top gr) = true
+  | TopNotVar => k = None /\ triples gr <> [] /\
+                 exists top, graph_top gr = Some top /\ falsy top = false /\ ~ is_source gr top
+  | InvalidRole => exists t, k = Some t /\ In t (triples gr) /\ has_role m (trole t) = false
+  | Unreachable => exists t top, k = Some t /\ In t (triples gr) /\ graph_top gr = Some top /\
+                   falsy top = false /\ is_source gr top /\ ~ reachable gr top (tsrc t)
+  end.
+
+Lemma in_bad_role_pairs : forall m ts k msg,
+  In (k, msg) (bad_role_pairs m ts) <->
+  msg = InvalidRole /\ exists t, k = Some t /\ In t ts /\ has_role m (trole t) = false.
+Proof.
+  intros m ts k msg. unfold bad_role_pairs. rewrite in_map_iff. split.
+  - intros (t & E & I). apply filter_In in I. destruct I as [I H]. inversion E; subst.
+    split; [reflexivity|]. exists t. repeat split; auto. apply negb_true_iff in H. exact H.
+  - intros (E & t & E2 & I & H). subst. exists t. split; [reflexivity|].
+    apply filter_In. split; [exact I|]. rewrite H. reflexivity.
+Qed.
+
+Lemma in_unreach_pairs : forall gr top res k msg,
+  dfs (gof (triples gr)) top = Some res ->
+  In (k, msg) (map (fun t => (Some t, Unreachable))
+                   (flat_map (g_get (gof (triples gr)))
+                      (sort_atoms (filter (fun v => negb (mem atom_eqb v res))
+                                          (dkeys (gof (triples gr))))))) <->
+  msg = Unreachable /\ exists t, k = Some t /\ In t (triples gr) /\ ~ reachable gr top (tsrc t).
+Proof.
+  intros gr top res k msg D. rewrite in_map_iff. split.
+  - intros (t & E & I). inversion E; subst. split; [reflexivity|]. exists t.
+    apply in_flat_map in I. destruct I as (uv & Iu & It).
+    apply in_sort_atoms, filter_In in Iu. destruct Iu as [Iu Nu].
+    rewrite g_get_gof in It. apply filter_In in It. destruct It as [It Es].
+    repeat split; auto. intro R. apply negb_true_iff in Nu.
+    assert (M : mem atom_eqb uv res = true).
+    { apply (dfs_component gr top res D). eapply reachable_congr_r; [|exact R].
+      rewrite atom_eqb_sym. exact Es. }
+    rewrite M in Nu. discriminate.
+  - intros (E & t & E2 & It & NR). subst. exists t. split; [reflexivity|].
+    assert (M : mem atom_eqb (tsrc t) (dkeys (gof (triples gr))) = true).
+    { rewrite <- (dmem_iff_keys atom_eqb), dmem_gof. unfold mem. apply existsb_exists.
+      exists (tsrc t). split; [apply in_map; exact It|apply atom_eqb_refl]. }
+    unfold mem in M. apply existsb_exists in M. destruct M as (uv & Iu & Eu).
+    apply in_flat_map. exists uv. split.
+    + apply in_sort_atoms, filter_In. split; [exact Iu|]. apply negb_true_iff.
+      destruct (mem atom_eqb uv res) eqn:M; [|reflexivity]. exfalso. apply NR.
+      apply (dfs_component gr top res D) in M. eapply reachable_congr_r; [|exact M].
+      rewrite atom_eqb_sym. exact Eu.
+    + rewrite g_get_gof. apply filter_In. split; [exact It|]. rewrite atom_eqb_sym. exact Eu.
+Qed.
+
+Lemma is_source_dmem : forall gr top,
+  dmem atom_eqb top (gof (triples gr)) = true <-> is_source gr top.
+Proof. intros. rewrite dmem_gof. unfold is_source. tauto. Qed.
+
+Lemma errors_pairs : forall m gr, exists ps,
+  errors_opt m gr = Some (run_append ctx_eqb ps []) /\
+  forall k msg, In (k, msg) ps <-> msg_spec m gr k msg.
+Proof.
+  intros m gr. unfold errors_opt.
+  destruct (triples gr) as [|t0 ts0] eqn:TS.
+  - exists [(None, Empty)]. split; [reflexivity|].
+    intros k msg. simpl. split.
+    + intros [E|[]]. inversion E; subst. simpl. rewrite TS. auto.
+    + destruct msg; simpl; rewrite TS.
+      * intros [E _]. subst. left. reflexivity.
+      * intros (_ & N & _). congruence.
+      * intros (_ & N & _). congruence.
+      * intros (t & _ & [] & _).
+      * intros (t & top & _ & [] & _).
+  - rewrite <- TS. rewrite first_pass_eq. fold (gof (triples gr)).
+    assert (NE : triples gr <> []) by (rewrite TS; discriminate).
+    set (g := gof (triples gr)).
+    assert (GEN : forall extra : list (ctx * emsg),
+              (forall k msg, In (k, msg) extra <->
+                 msg <> InvalidRole /\ msg_spec m gr k msg) ->
+              forall k msg, In (k, msg) (bad_role_pairs m (triples gr) ++ extra) <-> msg_spec m gr k msg).
+    { intros extra HX k msg. rewrite in_app_iff, in_bad_role_pairs, HX. split.
+      - intros [[E S]|[_ S]]; [subst; exact S|exact S].
+      - intro S. destruct msg; try (right; split; [discriminate|exact S]).
+        left. split; [reflexivity|exact S]. }
+    destruct (graph_top gr) as [top|] eqn:GT.
+    + destruct (falsy top) eqn:FT.
+      * exists (bad_role_pairs m (triples gr) ++ [(None, NoTop)]). split.
+        { rewrite run_append_app. reflexivity. }
+        apply GEN. intros k msg. unfold msg_spec. rewrite GT. simpl. split.
+        -- intros [E|[]]. inversion E; subst. split; [discriminate|]. simpl. rewrite FT. auto.
+        -- intros [N S]. destruct msg; simpl in S.
+           ++ destruct S as [_ S]. congruence.
+           ++ destruct S as [S _]. subst. left. reflexivity.
+           ++ destruct S as (_ & _ & top' & E & F & _). inversion E; subst. congruence.
+           ++ congruence.
+           ++ destruct S as (t & top' & _ & _ & E & F & _). inversion E; subst. congruence.
+      * destruct (dmem atom_eqb top g) eqn:DM; simpl.
+        -- destruct (dfs_total gr top) as [res D]. fold g in D. rewrite D.
+           eexists. split.
+           { rewrite unreach_fold. rewrite <- run_append_app. reflexivity. }
+           apply GEN. intros k msg. unfold g. rewrite (in_unreach_pairs gr top res k msg D). unfold msg_spec. rewrite GT.
+           apply is_source_dmem in DM. split.
+           ++ intros (E & t & E2 & It & NR). subst. split; [discriminate|]. simpl.
+              exists t, top. repeat split; auto.
+           ++ intros [N S]. destruct msg; simpl in S.
+              ** destruct S as [_ S]. congruence.
+              ** destruct S as (_ & _ & S). simpl in S. congruence.
+              ** destruct S as (_ & _ & top' & E & _ & NS). inversion E; subst. contradiction.
+              ** congruence.
+              ** destruct S as (t & top' & E1 & It & E & _ & _ & NR). inversion E; subst.
+                 split; [reflexivity|]. exists t. auto.
+        -- exists (bad_role_pairs m (triples gr) ++ [(None, TopNotVar)]). split.
+           { rewrite run_append_app. reflexivity. }
+           assert (NS : ~ is_source gr top).
+           { intro S. apply is_source_dmem in S. fold g in S. congruence. }
+           apply GEN. intros k msg. unfold msg_spec. rewrite GT. simpl. split.
+           ++ intros [E|[]]. inversion E; subst. split; [discriminate|]. simpl.
+              repeat split; auto. exists top. auto.
+           ++ intros [N S]. destruct msg; simpl in S.
+              ** destruct S as [_ S]. congruence.
+              ** destruct S as (_ & _ & S). simpl in S. congruence.
+              ** destruct S as [S _]. subst. left. reflexivity.
+              ** congruence.
+              ** destruct S as (t & top' & _ & _ & E & _ & SS & _). inversion E; subst. contradiction.
+    + exists (bad_role_pairs m (triples gr) ++ [(None, NoTop)]). split.
+      { rewrite run_append_app. reflexivity. }
+      apply GEN. intros k msg. unfold msg_spec. rewrite GT. simpl. split.
+      * intros [E|[]]. inversion E; subst. split; [discriminate|]. simpl. auto.
+      * intros [N S]. destruct msg; simpl in S.
+        -- destruct S as [_ S]. congruence.
+        -- destruct S as [S _]. subst. left. reflexivity.
+        -- destruct S as (_ & _ & top' & E & _). discriminate.
+        -- congruence.
+        -- destruct S as (t & top' & _ & _ & E & _). discriminate.
+Qed.
+
+(* ------------------------------------------------------------------ *)
+(** * Reading the report *)
+
+Lemma in_appended : forall {K V} (keq : K -> K -> bool) (k : K) (ps : list (K * V)) v,
+  In v (appended keq k ps) <-> exists k', In (k', v) ps /\ keq k k' = true.
+Proof.
+  intros K V keq k ps v. unfold appended. rewrite in_map_iff. split.
+  - intros ([k' v'] & E & I). simpl in E. subst v'. apply filter_In in I. destruct I as [I H].
+    exists k'. auto.
+  - intros (k' & I & H). exists (k', v). split; [reflexivity|]. apply filter_In. auto.
+Qed.
+
+Lemma reported_run_append : forall ps k msg,
+  reported (run_append ctx_eqb ps []) k msg <->
+  exists k', In (k', msg) ps /\ ctx_eqb k k' = true.
+Proof.
+  intros ps k msg. unfold reported. rewrite (dget_run_append ctx_eqb ctx_equiv). simpl.
+  rewrite <- in_appended. destruct (appended ctx_eqb k ps) as [|x l]; simpl.
+  - split; [intros (l & E & _); discriminate|intros []].
+  - split.
+    + intros (l' & E & I). inversion E; subst. exact I.
+    + intros I. eexists. split; [reflexivity|exact I].
+Qed.
+
+Lemma errors_run : forall m gr, exists ps,
+  errors m gr = run_append ctx_eqb ps [] /\
+  forall k msg, In (k, msg) ps <-> msg_spec m gr k msg.
+Proof.
+  intros m gr. destruct (errors_pairs m gr) as (ps & E & S). exists ps.
+  split; [|exact S]. unfold errors. rewrite E. reflexivity.
+Qed.
+
+Lemma errors_opt_total : forall m gr, errors_opt m gr = Some (errors m gr).
+Proof.
+  intros m gr. destruct (errors_pairs m gr) as (ps & E & _). unfold errors. rewrite E. reflexivity.
+Qed.
+
+Lemma reported_spec : forall m gr k msg,
+  reported (errors m gr) k msg <-> exists k', ctx_eqb k k' = true /\ msg_spec m gr k' msg.
+Proof.
+  intros m gr k msg. destruct (errors_run m gr) as (ps & E & S). rewrite E, reported_run_append.
+  split; intros (k' & A & B); exists k'; [apply S in A|apply S in B]; auto.
+Qed.
+
+Lemma ctx_eqb_none : forall k, ctx_eqb k None = true <-> k = None.
+Proof. destruct k; simpl; split; intro H; congruence. Qed.
+
+Lemma tmem_iff : forall t ts, tmem t ts = true <-> exists t', In t' ts /\ triple_eqb t t' = true.
+Proof. intros. unfold tmem. apply existsb_exists. Qed.
+
+Lemma has_role_defined : forall m r, has_role m r = true <-> role_defined m r.
+Proof.
+  intros m r. unfold has_role, role_defined. rewrite orb_true_iff, andb_true_iff. split.
+  - intros [H|[E H]]; [left; exact H|right]. exists (drop_last 3 r). split; [|exact H].
+    apply endswith_OF_split. exact E.
+  - intros [H|(r0 & E & H)]; [left; exact H|right]. subst r.
+    rewrite drop_last_OF. split; [apply endswith_app|exact H].
+Qed.
+
+Lemma invalid_role_iff : forall m gr t,
+  reported (errors m gr) (Some t) InvalidRole <->
+  tmem t (triples gr) = true /\ ~ role_defined m (trole t).
+Proof.
+  intros m gr t. rewrite reported_spec, tmem_iff, <- has_role_defined. split.
+  - intros (k' & E & t' & K & I & H). subst k'. simpl in E. split; [exists t'; auto|].
+    apply triple_eqb_parts in E. destruct E as (_ & R & _). rewrite R, H. discriminate.
+  - intros [(t' & I & E) H]. exists (Some t'). split; [exact E|]. exists t'. repeat split; auto.
+    apply triple_eqb_parts in E. destruct E as (_ & R & _). rewrite <- R.
+    destruct (has_role m (trole t)); congruence.
+Qed.
+
+Lemma invalid_role_only_triples : forall m gr k,
+  reported (errors m gr) k InvalidRole -> exists t, k = Some t.
+Proof.
+  intros m gr k H. apply reported_spec in H. destruct H as (k' & E & t' & K & _). subst.
+  destruct k as [t|]; [eauto|discriminate].
+Qed.
+
+Lemma unreachable_iff : forall m gr t,
+  reported (errors m gr) (Some t) Unreachable <->
+  tmem t (triples gr) = true /\
+  exists top, graph_top gr = Some top /\ falsy top = false /\ is_source gr top /\
+              ~ reachable gr top (tsrc t).
+Proof.
+  intros m gr t. rewrite reported_spec, tmem_iff. split.
+  - intros (k' & E & t' & top & K & I & GT & F & S & NR). subst k'. simpl in E.
+    split; [exists t'; auto|]. exists top. repeat split; auto. intro R. apply NR.
+    apply triple_eqb_parts in E. destruct E as (E & _). eapply reachable_congr_r; eauto.
+  - intros [(t' & I & E) (top & GT & F & S & NR)]. exists (Some t'). split; [exact E|].
+    exists t', top. repeat split; auto. intro R. apply NR.
+    apply triple_eqb_parts in E. destruct E as (E & _). rewrite atom_eqb_sym in E.
+    eapply reachable_congr_r; eauto.
+Qed.
+
+Lemma general_messages_iff : forall m gr k,
+  (reported (errors m gr) k Empty <-> k = None /\ triples gr = []) /\
+  (reported (errors m gr) k NoTop <->
+     k = None /\ triples gr <> [] /\ top_falsy (graph_top gr) = true) /\
+  (reported (errors m gr) k TopNotVar <->
+     k = None /\ triples gr <> [] /\
+     exists top, graph_top gr = Some top /\ falsy top = false /\ ~ is_source gr top).
+Proof.
+  intros m gr k. rewrite !reported_spec. simpl. split; [|split].
+  - split.
+    + intros (k' & E & K & T). subst. apply ctx_eqb_none in E. auto.
+    + intros [K T]. subst. exists None. auto.
+  - split.
+    + intros (k' & E & K & T). subst. apply ctx_eqb_none in E. auto.
+    + intros [K T]. subst. exists None. auto.
+  - split.
+    + intros (k' & E & K & T). subst. apply ctx_eqb_none in E. auto.
+    + intros [K T]. subst. exists None. auto.
+Qed.
+
+Lemma dfs_is_component : forall m gr top,
+  exists res, dfs (snd (first_pass m (triples gr))) top = Some res /\
+              forall v, mem atom_eqb v res = true <-> reachable gr top v.
+Proof.
+  intros m gr top. rewrite first_pass_eq. simpl. fold (gof (triples gr)).
+  destruct (dfs_total gr top) as [res D]. exists res. split; [exact D|].
+  apply dfs_component. exact D.
+Qed.
+
+(* ------------------------------------------------------------------ *)
+(** * --check : exit status and error-N metadata *)
+
+Lemma fold_orb : forall {A} (p : A -> bool) l b,
+  fold_left (fun acc x => acc || p x) l b = b || existsb p l.
+Proof.
+  induction l as [|x l IH]; intros b; simpl; [rewrite orb_false_r; reflexivity|].
+  rewrite IH. rewrite orb_assoc. reflexivity.
+Qed.
+
+Lemma check_status : forall m g, fst (check_graph m g) = negb (match errors m g with [] => true | _ => false end).
+Proof. intros m g. unfold check_graph. destruct (errors m g); reflexivity. Qed.
+
+Lemma check_status_true : forall m g, fst (check_graph m g) = true <-> errors m g <> [].
+Proof.
+  intros m g. rewrite check_status. destruct (errors m g); simpl; split; intro H; congruence.
+Qed.
+
+Lemma process_exit_iff : forall m gs,
+  process_exit m gs = true <-> exists g, In g gs /\ errors m g <> [].
+Proof.
+  intros m gs. unfold process_exit. rewrite fold_orb. simpl. rewrite existsb_exists.
+  split; intros (g & I & H); exists g; (split; [exact I|]); apply check_status_true; exact H.
+Qed.
+
+Lemma exit_code_iff : forall m files,
+  cli_exit_code m files = true <->
+  exists f, In f files /\ exists g, In g f /\ errors m g <> [].
+Proof.
+  intros m files. unfold cli_exit_code. rewrite fold_orb. simpl. rewrite existsb_exists.
+  split; intros (f & I & H); exists f; (split; [exact I|]); apply process_exit_iff; exact H.
+Qed.
+
+Lemma error_key_inj : forall i j, error_key i = error_key j -> i = j.
+Proof.
+  intros i j E. unfold error_key in E. apply app_inv_head in E. apply N_to_str_inj. exact E.
+Qed.
+
+Lemma str_equiv : is_equiv str_eqb.
+Proof.
+  repeat split.
+  - apply str_eqb_refl.
+  - intros a b. destruct (str_eqb a b) eqn:E.
+    + apply str_eqb_eq in E. subst. symmetry. apply str_eqb_refl.
+    + destruct (str_eqb b a) eqn:E2; [|reflexivity]. apply str_eqb_eq in E2. subst.
+      rewrite str_eqb_refl in E. discriminate.
+  - intros a b c H1 H2. apply str_eqb_eq in H1. apply str_eqb_eq in H2. subst. apply str_eqb_refl.
+Qed.
+
+Lemma inner_set_last : forall key pre (msgs : list emsg) md, msgs <> [] ->
+  dget str_eqb key (fold_left (fun md msg => dset str_eqb key (pre ++ emsg_text msg) md) msgs md)
+  = Some (pre ++ emsg_text (last msgs Empty)).
+Proof.
+  intros key pre msgs. induction msgs as [|x msgs IH]; intros md NE; [congruence|].
+  simpl fold_left. destruct msgs as [|y msgs'].
+  - simpl. apply (dget_dset_same str_eqb str_equiv). apply str_eqb_refl.
+  - rewrite IH by discriminate. reflexivity.
+Qed.
+
+Lemma inner_set_other : forall key key' pre (msgs : list emsg) md, key' <> key ->
+  dget str_eqb key' (fold_left (fun md msg => dset str_eqb key (pre ++ emsg_text msg) md) msgs md)
+  = dget str_eqb key' md.
+Proof.
+  intros key key' pre msgs. induction msgs as [|x msgs IH]; intros md NE; simpl; [reflexivity|].
+  rewrite IH by exact NE. apply (dget_dset_other str_eqb str_equiv). apply str_eqb_neq. exact NE.
+Qed.
+
+Lemma check_fold : forall (e : errdict) i0 md,
+  (forall k msgs, In (k, msgs) e -> msgs <> []) ->
+  forall j k msgs, nth_error e j = Some (k, msgs) ->
+  dget str_eqb (error_key (i0 + N.of_nat j)) (snd (fold_left check_step e (i0, md)))
+  = Some (ctx_text k ++ emsg_text (last msgs Empty)).
+Proof.
+  assert (OTHER : forall (e : errdict) i0 md key,
+            (forall j, key <> error_key (i0 + N.of_nat j)) ->
+            dget str_eqb key (snd (fold_left check_step e (i0, md))) = dget str_eqb key md).
+  { induction e as [|[k msgs] e IH]; intros i0 md key H; simpl; [reflexivity|].
+    unfold check_step at 2. simpl. rewrite IH.
+    - apply inner_set_other. specialize (H 0). rewrite N.add_0_r in H. exact H.
+    - intros j. specialize (H (S j)). replace (i0 + 1 + N.of_nat j)%N with (i0 + N.of_nat (S j))%N by lia.
+      exact H. }
+  induction e as [|[k0 msgs0] e IH]; intros i0 md NE j k msgs H.
+  - destruct j; discriminate.
+  - simpl fold_left. unfold check_step at 2. simpl fst. simpl snd.
+    destruct j as [|j].
+    + simpl in H. inversion H; subst. rewrite N.add_0_r. rewrite OTHER.
+      * apply inner_set_last. apply (NE k). left. reflexivity.
+      * intros j E. apply error_key_inj in E. lia.
+    + simpl in H. replace (i0 + N.of_nat (S j))%N with (i0 + 1 + N.of_nat j)%N by lia.
+      apply IH; [|exact H]. intros k' msgs' I. apply (NE k'). right. exact I.
+Qed.
+
+Lemma errors_vals_nonempty : forall m gr k msgs, In (k, msgs) (errors m gr) -> msgs <> [].
+Proof.
+  intros m gr. destruct (errors_run m gr) as (ps & E & _). rewrite E.
+  apply (vals_nonempty_run ctx_eqb). intros k l [].
+Qed.
+
+Lemma errors_keys_nodup : forall m gr, keys_nodup ctx_eqb (dkeys (errors m gr)).
+Proof.
+  intros m gr. destruct (errors_run m gr) as (ps & E & _). rewrite E.
+  apply (keys_nodup_run ctx_eqb ctx_equiv). exact I.
+Qed.
+
+Lemma check_graph_md : forall m gr, errors m gr <> [] ->
+  snd (check_graph m gr) = snd (fold_left check_step (errors m gr) (1%N, gmeta gr)).
+Proof. intros m gr H. unfold check_graph. destruct (errors m gr); [congruence|reflexivity]. Qed.
+
+Lemma check_records_all : forall m gr,
+  let e := errors m gr in
+  let md := snd (check_graph m gr) in
+  (fst (check_graph m gr) = true <-> e <> []) /\
+  keys_nodup ctx_eqb (dkeys e) /\
+  (forall k msg, reported e k msg ->
+     exists i k' msgs, nth_error e i = Some (k', msgs) /\ ctx_eqb k k' = true /\ In msg msgs) /\
+  (forall i k msgs, nth_error e i = Some (k, msgs) ->
+     msgs <> [] /\
+     dget str_eqb (error_key (N.of_nat i + 1)) md
+     = Some (ctx_text k ++ emsg_text (last msgs Empty))).
+Proof.
+  intros m gr e md. split; [apply check_status_true|]. split; [apply errors_keys_nodup|]. split.
+  - intros k msg (l & G & I). apply Errors_lemmas.dget_in in G. destruct G as (k0 & I0 & E0).
+    apply In_nth_error in I0. destruct I0 as [i Hi]. exists i, k0, l. auto.
+  - intros i k msgs H.
+    assert (NE : msgs <> []).
+    { apply (errors_vals_nonempty m gr k). eapply nth_error_In. exact H. }
+    split; [exact NE|]. unfold md. rewrite check_graph_md.
+    + fold e. replace (N.of_nat i + 1)%N with (1 + N.of_nat i)%N by lia.
+      apply check_fold; [|exact H]. apply errors_vals_nonempty.
+    + fold e. intro Z. rewrite Z in H. destruct i; discriminate.
+Qed.
+
+(* ------------------------------------------------------------------ *)
+(** * Graphs decoded from a tree: every source hangs off the root *)
+
+Fixpoint interp_bs (m : model) (vars : list atom) (var : atom) (bs : list branch)
+  (hc : bool) (ts : list triple) (es : list epientry)
+  : outcome (bool * list triple * list epientry) :=
+  match bs with
+  | [] => Ok (hc, ts, es)
+  | (role, tgt) :: bs' =>
+      '(role', repis) <- process_role role ;;
+      let hc' := hc || str_eqb role' INSTANCE in
+      match tgt with
+      | TAtom a =>
+          '(a', tepis) <- process_atomic a ;;
+          let tr0 : triple := (var, role', a') in
+          let tr := if is_role_inverted m role' && mem atom_eqb a' vars
+                    then deinvert m tr0 else tr0 in
+          interp_bs m vars var bs' hc' (ts ++ [tr]) (es ++ [(tr, repis ++ tepis)])
+      | TNode n' =>
+          let v' := node_var n' in
+          let tr := deinvert m (var, role', v') in
+          '(ts2, es2) <- interp_node m vars n' ;;
+          interp_bs m vars var bs' hc' (ts ++ tr :: ts2)
+             (es ++ (tr, repis ++ [Push v']) :: add_pop_last es2)
+      end
+  end.
+
+Lemma interp_node_eq : forall m vars var bs,
+  interp_node m vars (Node var bs) =
+  ('(hc, ts, es) <- interp_bs m vars var bs false [] [] ;;
+   if hc then Ok (ts, es)
+   else let inst : triple := (var, INSTANCE, ANone) in Ok (inst :: ts, (inst, []) :: es)).
+Proof.
+  intros m vars var bs. simpl.
+  match goal with
+  | |- bind (?g bs false [] []) _ = _ =>
+      assert (E : forall l hc ts es, g l hc ts es = interp_bs m vars var l hc ts es)
+  end.
+  { induction l as [|[role tgt] l IH]; intros hc ts es; [reflexivity|].
+    simpl. destruct (process_role role) as [[role' repis]| | | | | | | |]; simpl; try reflexivity.
+    destruct tgt as [a|n'].
+    - destruct (process_atomic a) as [[a' tepis]| | | | | | | |]; simpl; try reflexivity. apply IH.
+    - destruct (interp_node m vars n') as [[ts2 es2]| | | | | | | |]; simpl; try reflexivity. apply IH. }
+  rewrite E. reflexivity.
+Qed.
+
+Fixpoint nodes_bs (bs : list branch) : list node :=
+  match bs with
+  | [] => []
+  | (_, TAtom _) :: bs' => nodes_bs bs'
+  | (_, TNode n') :: bs' => nodes_of n' ++ nodes_bs bs'
+  end.
+
+Lemma nodes_of_eq : forall v bs,
+  nodes_of (Node v bs) = match v with ANone => nodes_bs bs | _ => Node v bs :: nodes_bs bs end.
+Proof.
+  intros v bs. simpl.
+  match goal with
+  | |- match v with ANone => ?g bs | _ => _ end = _ => assert (E : forall l, g l = nodes_bs l)
+  end.
+  { induction l as [|[role [a|n']] l IH]; simpl; [reflexivity|exact IH|rewrite IH; reflexivity]. }
+  rewrite E. reflexivity.
+Qed.
+
+Fixpoint edges_ok_bs (m : model) (bs : list branch) : bool :=
+  match bs with
+  | [] => true
+  | (role, TAtom _) :: bs' => edges_ok_bs m bs'
+  | (role, TNode n') :: bs' => node_role_ok m role && edges_not_instance m n' && edges_ok_bs m bs'
+  end.
+Lemma edges_not_instance_eq : forall m v bs, edges_not_instance m (Node v bs) = edges_ok_bs m bs.
+Proof.
+  intros m v bs. simpl. induction bs as [|[role [a|n']] bs IH]; simpl; [reflexivity|exact IH|].
+  rewrite IH. reflexivity.
+Qed.
+
+Definition fixt (t : triple) : triple := (tsrc t, ensure_colon (trole t), ttgt t).
+
+Lemma deinvert_cases : forall m s r t,
+  deinvert m (s, r, t) = (s, r, t) \/
+  deinvert m (s, r, t) = (t, invert_role m r, s).
+Proof.
+  intros. unfold deinvert. destruct (deinverts m); auto.
+  destruct (is_role_inverted m (trole (s, r, t))); auto.
+Qed.
+
+Lemma trole_deinvert : forall m s r t s' t',
+  trole (deinvert m (s, r, t)) = trole (deinvert m (s', r, t')).
+Proof.
+  intros. unfold deinvert. destruct (deinverts m); [|reflexivity].
+  unfold trole at 2 4. simpl fst. simpl snd.
+  destruct (is_role_inverted m r); reflexivity.
+Qed.
+
+Lemma instance_not_inverted : forall m, is_role_inverted m INSTANCE = false.
+Proof. intros m. unfold is_role_inverted. rewrite andb_false_iff. right. vm_compute. reflexivity. Qed.
+
+Lemma interp_bs_incl : forall m vars var bs hc ts es hc' ts' es',
+  interp_bs m vars var bs hc ts es = Ok (hc', ts', es') -> incl ts ts'.
+Proof.
+  induction bs as [|[role tgt] bs IH]; intros hc ts es hc' ts' es' H; simpl in H.
+  - inversion H; subst. apply incl_refl.
+  - destruct (process_role role) as [[role' repis]| | | | | | | |]; simpl in H; try discriminate.
+    destruct tgt as [a|n'].
+    + destruct (process_atomic a) as [[a' tepis]| | | | | | | |]; simpl in H; try discriminate.
+      apply IH in H. intros x I. apply H. apply in_or_app. left. exact I.
+    + destruct (interp_node m vars n') as [[ts2 es2]| | | | | | | |]; simpl in H; try discriminate.
+      apply IH in H. intros x I. apply H. apply in_or_app. left. exact I.
+Qed.
+
+(* Lemma A: the variable of a node is the source of one of its own triples *)
+Lemma interp_bs_hc : forall m vars var bs hc ts es hc' ts' es',
+  interp_bs m vars var bs hc ts es = Ok (hc', ts', es') ->
+  edges_ok_bs m bs = true ->
+  (hc = true -> exists t, In t ts /\ tsrc t = var) ->
+  (hc' = true -> exists t, In t ts' /\ tsrc t = var).
+Proof.
+  induction bs as [|[role tgt] bs IH]; intros hc ts es hc' ts' es' H G Inv; simpl in H.
+  - inversion H; subst. exact Inv.
+  - destruct (process_role role) as [[role' repis]| | | | | | | |] eqn:PR; simpl in H; try discriminate.
+    destruct tgt as [a|n'].
+    + destruct (process_atomic a) as [[a' tepis]| | | | | | | |]; simpl in H; try discriminate.
+      simpl in G. eapply IH; [exact H|exact G|]. intros HC.
+      apply orb_true_iff in HC. destruct HC as [HC|HC].
+      * destruct (Inv HC) as (t & I & S). exists t. split; [apply in_or_app; left; exact I|exact S].
+      * apply str_eqb_eq in HC. subst role'. rewrite instance_not_inverted. simpl.
+        exists (var, INSTANCE, a'). split; [apply in_or_app; right; left; reflexivity|reflexivity].
+    + destruct (interp_node m vars n') as [[ts2 es2]| | | | | | | |]; simpl in H; try discriminate.
+      simpl in G. apply andb_true_iff in G. destruct G as [G G3].
+      apply andb_true_iff in G. destruct G as [G1 G2].
+      eapply IH; [exact H|exact G3|]. intros HC.
+      apply orb_true_iff in HC. destruct HC as [HC|HC].
+      * destruct (Inv HC) as (t & I & S). exists t. split; [apply in_or_app; left; exact I|exact S].
+      * exfalso. apply str_eqb_eq in HC. subst role'. unfold node_role_ok in G1. rewrite PR in G1.
+        unfold final_role, deinvert in G1. simpl trole in G1. rewrite instance_not_inverted in G1.
+        destruct (deinverts m); vm_compute in G1; discriminate.
+Qed.
+
+Lemma interp_node_src : forall m vars n ts es,
+  interp_node m vars n = Ok (ts, es) -> edges_not_instance m n = true ->
+  exists t, In t ts /\ tsrc t = node_var n.
+Proof.
+  intros m vars [var bs] ts es H G. rewrite interp_node_eq in H. rewrite edges_not_instance_eq in G.
+  destruct (interp_bs m vars var bs false [] []) as [[[hc ts0] es0]| | | | | | | |] eqn:B;
+    simpl in H; try discriminate.
+  destruct hc.
+  - inversion H; subst. eapply interp_bs_hc; eauto. discriminate.
+  - inversion H; subst. exists (var, INSTANCE, ANone). split; [left; reflexivity|reflexivity].
+Qed.
+
+Section Decoded.
+  Variable m : model.
+  Variable vars : list atom.
+  Variable gr : graph.
+
+  Definition within (ts : list triple) : Prop := forall t, In t ts -> In (fixt t) (triples gr).
+
+  Lemma within_source : forall ts t, within ts -> In t ts -> is_source gr (tsrc t).
+  Proof.
+    intros ts t W I. unfold is_source, mem. apply existsb_exists. exists (tsrc t). split.
+    - apply in_map_iff. exists (fixt t). split; [reflexivity|apply W; exact I].
+    - apply atom_eqb_refl.
+  Qed.
+
+  Definition hangs (var : atom) (t : triple) : Prop :=
+    reachable gr var (tsrc t) \/ mem atom_eqb (tsrc t) vars = true.
+
+  Definition node_good (n : node) : Prop :=
+    forall ts es, interp_node m vars n = Ok (ts, es) -> edges_not_instance m n = true ->
+      within ts ->
+      (forall n'', In n'' (nodes_of n) -> reachable gr (node_var n) (node_var n'')) /\
+      (forall t, In t ts -> hangs (node_var n) t).
+
+  Lemma hangs_trans : forall var v' t, reachable gr var v' -> hangs v' t -> hangs var t.
+  Proof. intros var v' t R [H|H]; [left; eapply reach_trans; eauto|right; exact H]. Qed.
+
+  Lemma interp_bs_good : forall var bs, Forall (branch_ok node_good) bs ->
+    is_source gr var ->
+    forall hc ts es hc' ts' es',
+    interp_bs m vars var bs hc ts es = Ok (hc', ts', es') ->
+    edges_ok_bs m bs = true -> within ts' ->
+    (forall t, In t ts -> hangs var t) ->
+    (forall n'', In n'' (nodes_bs bs) -> reachable gr var (node_var n'')) /\
+    (forall t, In t ts' -> hangs var t).
+  Proof.
+    intros var bs FB SV. induction FB as [|[role tgt] bs Hb Hbs IH];
+      intros hc ts es hc' ts' es' H G W Inv; simpl in H.
+    - inversion H; subst. split; [intros n'' []|exact Inv].
+    - destruct (process_role role) as [[role' repis]| | | | | | | |] eqn:PR; simpl in H; try discriminate.
+      destruct tgt as [a|n'].
+      + destruct (process_atomic a) as [[a' tepis]| | | | | | | |]; simpl in H; try discriminate.
+        simpl in G. simpl nodes_bs. eapply IH; [exact H|exact G|exact W|].
+        intros t I. apply in_app_or in I. destruct I as [I|[I|[]]]; [apply Inv; exact I|]. subst t.
+        destruct (is_role_inverted m role' && mem atom_eqb a' vars) eqn:C.
+        * apply andb_true_iff in C. destruct C as [_ C].
+          destruct (deinvert_cases m var role' a') as [E|E]; rewrite E.
+          -- left. apply reach_refl. apply atom_eqb_refl.
+          -- right. exact C.
+        * left. apply reach_refl. apply atom_eqb_refl.
+      + destruct (interp_node m vars n') as [[ts2 es2]| | | | | | | |] eqn:IN; simpl in H; try discriminate.
+        simpl in G. apply andb_true_iff in G. destruct G as [G G3].
+        apply andb_true_iff in G. destruct G as [G1 G2].
+        assert (INC := interp_bs_incl _ _ _ _ _ _ _ _ _ _ H).
+        set (tr := deinvert m (var, role', node_var n')) in *.
+        assert (W2 : within ts2).
+        { intros t I. apply W, INC. apply in_or_app. right. right. exact I. }
+        assert (Wtr : In (fixt tr) (triples gr)).
+        { apply W, INC. apply in_or_app. right. left. reflexivity. }
+        assert (SV' : is_source gr (node_var n')).
+        { destruct (interp_node_src _ _ _ _ _ IN G2) as (t & I & S). rewrite <- S.
+          eapply within_source; eauto. }
+        assert (NI : str_eqb (trole (fixt tr)) INSTANCE = false).
+        { unfold node_role_ok in G1. rewrite PR in G1. apply negb_true_iff in G1.
+          unfold final_role in G1. unfold fixt, tr. simpl.
+          rewrite (trole_deinvert m var role' (node_var n') ANone ANone). exact G1. }
+        assert (R : reachable gr var (node_var n')).
+        { destruct (deinvert_cases m var role' (node_var n')) as [E|E].
+          - apply reach_edge. exists (fixt tr). repeat split; auto; unfold tr; rewrite E; simpl;
+              apply atom_eqb_refl.
+          - apply reach_sym, reach_edge. exists (fixt tr). repeat split; auto; unfold tr; rewrite E; simpl;
+              apply atom_eqb_refl. }
+        unfold branch_ok in Hb. simpl in Hb.
+        destruct (Hb ts2 es2 IN G2 W2) as [N2 T2].
+        assert (REST : (forall n'', In n'' (nodes_bs bs) -> reachable gr var (node_var n'')) /\
+                       (forall t, In t ts' -> hangs var t)).
+        { eapply IH; [exact H|exact G3|exact W|].
+          intros t I. apply in_app_or in I. destruct I as [I|[I|I]].
+          - apply Inv. exact I.
+          - subst t. destruct (deinvert_cases m var role' (node_var n')) as [E|E];
+              unfold tr; rewrite E; left; simpl; [apply reach_refl, atom_eqb_refl|exact R].
+          - eapply hangs_trans; [exact R|]. apply T2. exact I. }
+        destruct REST as [RN RT]. split; [|exact RT].
+        intros n'' I. simpl in I. apply in_app_or in I. destruct I as [I|I].
+        * eapply reach_trans; [exact R|]. apply N2. exact I.
+        * apply RN. exact I.
+  Qed.
+
+  Lemma node_good_all : forall n, node_good n.
+  Proof.
+    induction n as [var bs IHbs] using node_ind'. intros ts es H G W.
+    assert (SV : is_source gr var).
+    { destruct (interp_node_src _ _ _ _ _ H G) as (t & I & S). simpl in S. rewrite <- S.
+      eapply within_source; eauto. }
+    rewrite interp_node_eq in H. rewrite edges_not_instance_eq in G.
+    destruct (interp_bs m vars var bs false [] []) as [[[hc ts0] es0]| | | | | | | |] eqn:B;
+      simpl in H; try discriminate.
+    assert (W0 : within ts0).
+    { destruct hc; inversion H; subst; [exact W|]. intros t I. apply W. right. exact I. }
+    destruct (interp_bs_good var bs IHbs SV _ _ _ _ _ _ B G W0) as [RN RT]; [intros t []|].
+    simpl node_var. split.
+    - intros n'' I. rewrite nodes_of_eq in I.
+      assert (C : n'' = Node var bs \/ In n'' (nodes_bs bs)).
+      { destruct var; simpl in I; [right; exact I| |];
+          (destruct I as [I|I]; [left; symmetry; exact I|right; exact I]). }
+      destruct C as [C|C]; [subst; apply reach_refl, atom_eqb_refl|apply RN; exact C].
+    - intros t I. destruct hc; inversion H; subst.
+      + apply RT. exact I.
+      + destruct I as [I|I]; [subst; left; apply reach_refl, atom_eqb_refl|apply RT; exact I].
+  Qed.
+End Decoded.
+
+Lemma triples_mk_graph : forall ts top ed meta,
+  triples (mk_graph ts top ed meta) = map fixt ts.
+Proof. reflexivity. Qed.
+
+Lemma decoded_connected : forall m t g,
+  interpret m t = Ok g -> edges_not_instance m (troot t) = true ->
+  is_source g (node_var (troot t)) /\
+  forall x, In x (triples g) -> reachable g (node_var (troot t)) (tsrc x).
+Proof.
+  intros m t g H G. unfold interpret in H.
+  destruct (interp_node m (tree_vars (troot t)) (troot t)) as [[ts es]| | | | | | | |] eqn:IN;
+    simpl in H; try discriminate.
+  inversion H; subst g. clear H.
+  set (gr := mk_graph ts _ _ _).
+  assert (W : within gr ts).
+  { intros x I. unfold gr. rewrite triples_mk_graph. apply in_map. exact I. }
+  destruct (node_good_all m (tree_vars (troot t)) gr (troot t) ts es IN G W) as [RN RT].
+  split.
+  - destruct (interp_node_src _ _ _ _ _ IN G) as (x & I & S). rewrite <- S.
+    eapply within_source; eauto.
+  - intros x I. unfold gr in I. rewrite triples_mk_graph in I. apply in_map_iff in I.
+    destruct I as (x0 & E & I). subst x. simpl.
+    destruct (RT x0 I) as [R|M]; [exact R|].
+    unfold mem, tree_vars in M. apply existsb_exists in M. destruct M as (v & Iv & Ev).
+    apply in_map_iff in Iv. destruct Iv as (n'' & En & In'').
+    subst v. eapply reachable_congr_r; [rewrite atom_eqb_sym; exact Ev|]. apply RN. exact In''.
+Qed.
+
+Lemma decoded_only_role_errors : forall m t g,
+  interpret m t = Ok g -> falsy (node_var (troot t)) = false ->
+  edges_not_instance m (troot t) = true ->
+  forall k msg, reported (errors m g) k msg -> msg = InvalidRole.
+Proof.
+  intros m t g H F G k msg R.
+  destruct (decoded_connected m t g H G) as [SV RT].
+  assert (GT : graph_top g = Some (node_var (troot t))).
+  { unfold interpret in H.
+    destruct (interp_node m (tree_vars (troot t)) (troot t)) as [[ts es]| | | | | | | |];
+      simpl in H; try discriminate.
+    inversion H; subst g. unfold graph_top. simpl.
+    destruct (node_var (troot t)); [discriminate|reflexivity|reflexivity]. }
+  apply reported_spec in R. destruct R as (k' & _ & S).
+  destruct msg; simpl in S; try reflexivity; exfalso.
+  - destruct S as [_ E]. unfold is_source in SV. rewrite E in SV. discriminate.
+  - destruct S as (_ & _ & S). rewrite GT in S. simpl in S. congruence.
+  - destruct S as (_ & _ & top & E & _ & NS). rewrite GT in E. inversion E; subst. contradiction.
+  - destruct S as (x & top & _ & I & E & _ & _ & NR). rewrite GT in E. inversion E; subst.
+    apply NR. apply RT. exact I.
+Qed.
+
+(* ------------------------------------------------------------------ *)
+(** * Statements as used by Properties/C16.v (with the domain guard) *)
+
+Lemma invalid_role_iff_guarded : forall m gr, str_sources gr -> forall t,
+  reported (errors m gr) (Some t) InvalidRole <->
+  tmem t (triples gr) = true /\ ~ role_defined m (trole t).
+Proof. intros m gr _ t. apply invalid_role_iff. Qed.
+
+Lemma unreachable_iff_guarded : forall m gr, str_sources gr -> forall t,
+  reported (errors m gr) (Some t) Unreachable <->
+  tmem t (triples gr) = true /\
+  exists top, graph_top gr = Some top /\ falsy top = false /\ is_source gr top /\
+              ~ reachable gr top (tsrc t).
+Proof. intros m gr _ t. apply unreachable_iff. Qed.
+
+Lemma general_messages_iff_guarded : forall m gr, str_sources gr -> forall k,
+  (reported (errors m gr) k Empty <-> k = None /\ triples gr = []) /\
+  (reported (errors m gr) k NoTop <->
+     k = None /\ triples gr <> [] /\ top_falsy (graph_top gr) = true) /\
+  (reported (errors m gr) k TopNotVar <->
+     k = None /\ triples gr <> [] /\
+     exists top, graph_top gr = Some top /\ falsy top = false /\ ~ is_source gr top).
+Proof. intros m gr _ k. apply general_messages_iff. Qed.
+
+Lemma exit_code_stdin_iff : forall m gs,
+  cli_exit_code_stdin m gs = true <-> exists g, In g gs /\ errors m g <> [].
+Proof. intros. apply process_exit_iff. Qed.
+
+(* witnesses *)
+Definition s_a : str := [97]%N.
+Definition s_b : str := [98]%N.
+Definition s_x : str := [120]%N.
+Definition s_y : str := [121]%N.
+Definition ARG0 : str := [58;65;82;71;48]%N.
+(* (a :instance (b / x)) *)
+Definition tree_instance_edge : tree :=
+  mkTree (Node (AStr s_a) [(INSTANCE, TNode (Node (AStr s_b) [(SLASHS, TAtom (AStr s_x))]))]) [].
+(* (a / x :ARG0 (b / y :ARG0-of a)) *)
+Definition tree_plain : tree :=
+  mkTree (Node (AStr s_a) [(SLASHS, TAtom (AStr s_x));
+                           (ARG0, TNode (Node (AStr s_b) [(SLASHS, TAtom (AStr s_y));
+                                                          (ARG0 ++ OF, TAtom (AStr s_a))]))]) [].
+
+Lemma decoded_guard_is_needed :
+  exists g, interpret default_model tree_instance_edge = Ok g /\
+            falsy (node_var (troot tree_instance_edge)) = false /\
+            edges_not_instance default_model (troot tree_instance_edge) = false /\
+            reported (errors default_model g) (Some (AStr s_b, INSTANCE, AStr s_x)) Unreachable.
+Proof.
+  eexists. split; [vm_compute; reflexivity|]. split; [reflexivity|]. split; [vm_compute; reflexivity|].
+  eexists. split; [vm_compute; reflexivity|]. left. reflexivity.
+Qed.
+
+Lemma decoded_nonvacuous :
+  exists g, interpret default_model tree_plain = Ok g /\
+            falsy (node_var (troot tree_plain)) = false /\
+            edges_not_instance default_model (troot tree_plain) = true /\
+            length (triples g) = 4 /\
+            reported (errors default_model g) (Some (AStr s_a, ARG0, AStr s_b)) InvalidRole.
+Proof.
+  eexists. split; [vm_compute; reflexivity|]. split; [reflexivity|]. split; [vm_compute; reflexivity|].
+  split; [reflexivity|]. eexists. split; [vm_compute; reflexivity|]. left. reflexivity.
+Qed.
+
+(* a two-component graph with string sources: b is not connected to the top a *)
+Definition graph_two_components : graph :=
+  mkGraph [(AStr s_a, INSTANCE, AStr s_b); (AStr s_b, INSTANCE, AStr s_x)] (Some (AStr s_a)) [] [].
+Lemma general_nonvacuous :
+  str_sources graph_two_components /\
+  reported (errors default_model graph_two_components) (Some (AStr s_b, INSTANCE, AStr s_x)) Unreachable.
+Proof.
+  split.
+  - intros t [E|[E|[]]]; subst; eexists; reflexivity.
+  - eexists. split; [vm_compute; reflexivity|]. left. reflexivity.
+Qed.
